@@ -546,10 +546,10 @@ pub fn run(args: &Args) -> i32 {
          explicitly added address named by a failure survived; distinct by hash of (config, op sequence)",
     );
     let tiny = args.extra.get("budget").map(|s| s == "tiny").unwrap_or(false);
-    let n = if tiny { 6 } else { args.tier.pick(30_000u64, 1_500_000) };
+    let n = if tiny { 16 } else { args.tier.pick(30_000u64, 1_500_000) };
     vmon::par_cases(&check, n, args.threads, |_i, rng| {
         let w = gen_world(rng);
-        let len = if tiny { 25 } else { 20 + rng.usize(101) };
+        let len = if tiny { 40 } else { 20 + rng.usize(101) };
         let ops: Vec<Op> = (0..len).map(|_| gen_op(rng, &w)).collect();
         let mut stats = Stats::default();
         let mut trace = vec![];
